@@ -54,6 +54,61 @@ Proof.
 Qed.
 Print Assumptions C09_boundary_cut_then_session.
 
+(** The last clause of the property: "after resuming, every invocation present carries all its data points".
+    The progress a session finds for a run is the largest invocation number among the loaded data points
+    (RunId._max_invocation): the next session continues with the following number. *)
+Definition max_inv (run : nat) (l : list dpoint) : nat :=
+  fold_left Nat.max (map (fun dp => match p_ms dp with m :: _ => m_inv m | [] => 0 end) (filter (fun dp => Nat.eqb (p_run dp) run) l)) 0.
+Definition count_inv (run inv : nat) (l : list dpoint) : nat :=
+  length (filter (fun dp => Nat.eqb (p_run dp) run && match p_ms dp with m :: _ => Nat.eqb (m_inv m) inv | [] => false end) l).
+
+(** PARTIAL (what holds): if the cut falls on an invocation boundary - the complete data points are those of
+    the first m invocations - exactly the data points of whole invocations are loaded. *)
+Lemma firstn_concat_boundary {A} (invs : list (list A)) m :
+  firstn (length (concat (firstn m invs))) (concat invs) = concat (firstn m invs).
+Proof.
+  revert m. induction invs as [|x invs IH]; intros m; [destruct m; reflexivity|].
+  destruct m as [|m]; [reflexivity|]. simpl. rewrite app_length, firstn_app.
+  replace (length x + length (concat (firstn m invs)) - length x) with (length (concat (firstn m invs))) by (rewrite Nat.add_comm; symmetry; apply Nat.add_sub).
+  rewrite IH. rewrite firstn_all2 by (apply Nat.le_add_r). reflexivity.
+Qed.
+
+Theorem C09_invocation_complete_partial :
+  forall file (invs : list (list newdp)) k g,
+    crashed (load file) = false -> Forall dp_ok (concat invs) ->
+    let t := torn_now file (session_lines file (concat invs)) k g in
+    exists j new,
+      loaded (load t) = loaded (load file) ++ new /\ map dp_view new = map nd_view (firstn j (concat invs)) /\
+      (forall m, j = length (concat (firstn m invs)) -> map dp_view new = map nd_view (concat (firstn m invs))).
+Proof.
+  intros file invs k g Hc Hok t.
+  destruct (torn_load file (concat invs) k g Hc Hok) as [_ [j [new [_ [L [V _]]]]]].
+  exists j, new. split; [exact L|]. split; [exact V|].
+  intros m E. rewrite V, E, firstn_concat_boundary. reflexivity.
+Qed.
+Print Assumptions C09_invocation_complete_partial.
+
+(** REFUTED as stated (known finding F18c): an invocation of two data points, cut after the first one. The
+    file loads, the invocation counts as done (the next session would start with invocation 2), and it
+    keeps one of its two data points. *)
+Theorem C09_invocation_complete_refuted :
+  exists file dps k g,
+    crashed (load file) = false /\ Forall dp_ok dps /\
+    let t := torn_now file (session_lines file dps) k g in
+    crashed (load t) = false /\
+    count_inv 7 1 (loaded (load (file ++ session_lines file dps))) = 2 /\   (* what the harness produced *)
+    count_inv 7 1 (loaded (load t)) = 1 /\                                  (* what the torn file holds *)
+    max_inv 7 (loaded (load t)) = 1.                                         (* and it counts as done *)
+Proof.
+  exists [], [{| n_run := 7; n_bench := 3; n_inv := 1; n_ms := [(1, true, 5%Z)] |};
+              {| n_run := 7; n_bench := 3; n_inv := 1; n_ms := [(2, true, 6%Z)] |}], 8, GNone.
+  split; [reflexivity|]. split.
+  - constructor; [exists [], 1, 5%Z; split; [reflexivity | constructor]|].
+    constructor; [exists [], 2, 6%Z; split; [reflexivity | constructor] | constructor].
+  - vm_compute. repeat split; reflexivity.
+Qed.
+Print Assumptions C09_invocation_complete_refuted.
+
 (** Non-vacuity: a data point of two lines, cut after its first line, then resumed. *)
 Example C09_example :
   let d1 := {| n_run := 7; n_bench := 3; n_inv := 1; n_ms := [(1, true, 5%Z)] |} in
